@@ -121,27 +121,30 @@ impl Registry {
             return Some(v);
         }
         for &(ref prefix, ref value) in &self.prefixes {
-            if let Some(name) = name.strip_prefix(prefix) {
-                if let Some(canonicalized) = self.canonicalize_exact(name, depth) {
+            if let Some(stem) = name.strip_prefix(prefix) {
+                if let Some(canonicalized) = self.canonicalize_exact(stem, depth) {
                     let mut prefix = prefix;
                     for &(ref other, ref otherval) in &self.prefixes {
                         if other.len() > prefix.len() && value == otherval {
                             prefix = other;
                         }
                     }
-                    // The prefix can only be put in front of a name
-                    // that is defined exactly. An alias that expands
-                    // to a prefixed name (`KB` -> `kilobyte`) has to
-                    // stay as it is, `millikilobyte` cannot be read
-                    // back.
-                    let stem = if self.base_units.contains(&canonicalized[..])
-                        || self.units.contains_key(&canonicalized)
-                    {
-                        &canonicalized[..]
-                    } else {
-                        name
-                    };
-                    return Some(format!("{}{}", prefix, stem));
+                    // The canonical name has to read back as the same
+                    // value. It does not when the alias expands to a
+                    // prefixed name (`KB` -> `kilobyte`, and
+                    // `millikilobyte` is not a unit), or when a unit
+                    // with exactly that name exists and shadows the
+                    // prefixed reading.
+                    let value = self.lookup(name);
+                    let canonical = format!("{}{}", prefix, canonicalized);
+                    if self.lookup(&canonical) == value {
+                        return Some(canonical);
+                    }
+                    let canonical = format!("{}{}", prefix, stem);
+                    if self.lookup(&canonical) == value {
+                        return Some(canonical);
+                    }
+                    return Some(name.to_owned());
                 }
             }
         }
